@@ -251,3 +251,13 @@ Example demo_column_weights :
                        SList KCols 30 false 0 0 None [0; 1; 2] 1 0 0] in
   match getn h 3 with Some n => (cols_widths h n, col_x h n 2) | None => ([], 0) end = ([5; 8; 15], 15).
 Proof. vm_compute. reflexivity. Qed.
+
+(* a ListBox over a plain list (SimpleListWalker, n_cw = 1): deleting the focused last item pulls the focus index back
+   inside (focus 2 of [a b c], del body[2] -> focus 1); inserting before the focus leaves the index where it was *)
+Example demo_simple_walker :
+  let h := build FUEL [SLeaf 9 false 0 0 true []; SLeaf 9 false 0 0 true []; SLeaf 9 false 0 0 true []; SLeaf 9 false 0 0 true [];
+                       SList KLBox 9 false 9 0 (Some 2) [0; 1; 2] 0 1 0] in
+  (get_pos (fst (edit FUEL 4 (MonitoredList.DelItem 2) h)) 4, get_pos (fst (edit FUEL 4 (MonitoredList.Insert 0 3) h)) 4,
+   focus_child (fst (edit FUEL 4 (MonitoredList.Insert 0 3) h)) 4)
+  = (ROk 1, ROk 2, Some 1).
+Proof. vm_compute. reflexivity. Qed.
